@@ -192,11 +192,20 @@ def check_consistency(rec, idnt, case, init=None, tap_entry=None,
     seg = np.asarray(idnt["segment"] == fp["segment"])
     x = np.asarray(idnt[fp["x_axis"]])
     y = np.asarray(idnt[fp["y_axis"]])
+    P = prefix
+    missing = [c for c in ("fit", "fit residuals", "fit range")
+               if c not in idnt.columns]
+    if missing:
+        # (after a finished fit_model call the three result columns exist:
+        #  NaN for an unsuccessful fit)
+        rec.violation(P + "columns-missing",
+                      "columns %s do not exist after fit_model (success=%r)"
+                      % (missing, fp.get("success")), case)
+        return
     fit = np.asarray(idnt["fit"])
     res = np.asarray(idnt["fit residuals"])
     rng_ = np.asarray(idnt["fit range"]).astype(bool)
     wcp = fp["weight_cp"]
-    P = prefix
     if not fp.get("success", False):
         rec.event("unsuccessful fits judged")
         rec.check(np.all(np.isnan(fit)) and np.all(np.isnan(res)),
